@@ -291,6 +291,7 @@ class Simulation(object):
                 Simulates until max_customers have been spawned and accepted
                 (not rejected) at the Arrival Node
         """
+        previous_time = self.current_time
         next_active_node = self.find_next_active_node()
         self.current_time = next_active_node.next_event_date
 
